@@ -6,7 +6,7 @@ and stay outside.
 import numpy as np
 import z3
 
-from symex import arrays, core, stubs
+from symex import arrays, core, purity, stubs
 from symex.core import SInt, all_, and_, any_, implies, ite, not_, or_
 from symex.harness import Case, Twin
 
@@ -91,7 +91,10 @@ def case_stack(ctx, ntr, agg):
     labels = [ctx.int(f"w{i}", 0, 2) for i in range(ntr)]
     data = [ctx.real(f"d{i}") for i in range(ntr)]
     fcn = {"sum": np.sum, "mean": np.mean}[agg]
-    res = ctx.call("stack", v.stack, arrays.mk(list(data), shape=(ntr, 1), tag=np.dtype(float)), arrays.mk(list(labels), tag=np.dtype(np.int64)), fcn_agg=fcn)
+    d_arr, l_arr = arrays.mk(list(data), shape=(ntr, 1), tag=np.dtype(float)), arrays.mk(list(labels), tag=np.dtype(np.int64))
+    b_d, b_l = purity.snap(d_arr), purity.snap(l_arr)
+    res = ctx.call("stack", v.stack, d_arr, l_arr, fcn_agg=fcn)
+    purity.oblige_untouched(ctx, "stack_leaves_data_and_labels_untouched", [d_arr, l_arr], [b_d, b_l])
     stk, fold = res
     lv = [int(ctx.concretize(core._it(l))) if isinstance(l, core.Sym) else int(l) for l in labels]
     groups = sorted(set(lv))
@@ -138,7 +141,12 @@ def case_stack_nan(ctx, ntr):
 def case_rolling(ctx, n, wl, window):
     import ibldsp.smooth as sm
     xs = [ctx.real(f"x{i}", -100, 100) for i in range(n)]
-    out = ctx.call("rolling_window", sm.rolling_window, arrays.mk(list(xs), tag=np.dtype(float)), window_len=wl, window=window)
+    x_arr = arrays.mk(list(xs), tag=np.dtype(float))
+    b_x = purity.snap(x_arr)
+    out = ctx.call("rolling_window", sm.rolling_window, x_arr, window_len=wl, window=window)
+    purity.oblige_untouched(ctx, "rolling_window_leaves_its_input_untouched", x_arr, b_x)
+    again = ctx.call("rolling_window", sm.rolling_window, x_arr, window_len=wl, window=window)
+    purity.oblige_same_result(ctx, "second_identical_call_gives_the_same_result", out, again)
     ctx.oblige("output_keeps_the_input_length", tuple(out.shape) == (n,), detail={"shape": str(out.shape)})
     # constant input -> the constant
     c = ctx.real("c", 1, 100)
